@@ -51,6 +51,18 @@ def run(tier, seed):
             n = ann or flag or 1
             cases.append({"id": len(cases), "t": ti, "flag": flag, "ann": ann, "echo": echo, "lines": lines,
                           "recs": [[list(r) for r in recs] for _ in range(n)]})
+    # templates whose records depend on a per-shot coin (injected): totals that are not multiples of the shot count
+    ctemplates = gen_shots.conditional_templates()
+    for ti, (name, src, by_coin, lines, per_shot) in enumerate(ctemplates):
+        for flag, ann, echo in gen_shots.configs(tier):
+            n = ann or flag or 1
+            coins = [0 if k % 3 == 1 else 1 for k in range(n)]
+            draws = []
+            for c_ in coins:
+                draws += [0.25 if c_ else 0.75] + [0.5] * (per_shot - 1)
+            cases.append({"id": len(cases), "t": len(templates) + ti, "flag": flag, "ann": ann, "echo": echo, "lines": lines,
+                          "recs": [[list(r) for r in by_coin[c_]] for c_ in coins], "draws": draws})
+    templates = templates + [(name, src, None, lines) for (name, src, by_coin, lines, per_shot) in ctemplates]
     tmp = vlib.scratch("shots")
     try:
         cf_ = os.path.join(tmp, "cases.ndjson")
@@ -78,7 +90,12 @@ def run(tier, seed):
             args.append("--shots=%d" % c["flag"])
         if c["echo"] != "unset":
             args.append("--echo=" + c["echo"])
-        rr = runner.run_cli(args + ["main.bloch"], {"main.bloch": gen_shots.with_annotation(src, c["ann"])}, env={"BLOCH_VERIF_GC": "none"})
+        files = {"main.bloch": gen_shots.with_annotation(src, c["ann"])}
+        env = {"BLOCH_VERIF_GC": "none"}
+        if "draws" in c:
+            files["draws.txt"] = " ".join(repr(d) for d in c["draws"])
+            env["BLOCH_VERIF_DRAWS"] = "draws.txt"
+        rr = runner.run_cli(args + ["main.bloch"], files, env=env)
         return c, rr
     with cf.ThreadPoolExecutor(max_workers=16) as ex:
         results = list(ex.map(one, cases))
